@@ -24,7 +24,7 @@ BATTERY = [
 ]
 
 
-def real_cli(args, data, outk):
+def real_cli(args, data, outk, argv=None):
     """run the real command line in a subprocess inside a scratch directory; returns
     (returncode, stdout, {file name: bytes} after the run)"""
     with tempfile.TemporaryDirectory(prefix="olverif-cli-") as d:
@@ -34,6 +34,8 @@ def real_cli(args, data, outk):
             f.write(c16k.OLD_CONTENT)
         out = c16k.out_name(outk)
         cmd = [sys.executable, "-W", "ignore", "-m", "oneliner", "in.py"] + list(args) + (["-o", out] if out else [])
+        if argv is not None:
+            cmd = [sys.executable, "-W", "ignore", "-m", "oneliner"] + list(argv)
         env = dict(os.environ, PYTHONPATH=common.REPO, PYTHONIOENCODING="utf-8")
         p = subprocess.run(cmd, capture_output=True, cwd=d, env=env, timeout=60)
         files = {}
@@ -45,8 +47,9 @@ def real_cli(args, data, outk):
         return p.returncode, p.stdout.decode("utf-8", "replace"), files
 
 
-def cli_agrees_with_spec(c_args, use_out, dep, si):
-    """the property's literal observable, on the real CLI (use_out: bool or index into OUT_KINDS)"""
+def cli_agrees_with_spec(c_args, use_out, dep, si, argv=None):
+    """the property's literal observable, on the real CLI (use_out: bool or index into OUT_KINDS;
+    argv: the exact command line after the program name, instead of the canonical one)"""
     outk = int(use_out)
     args = []
     for a in c_args:
@@ -54,7 +57,7 @@ def cli_agrees_with_spec(c_args, use_out, dep, si):
     if dep:
         args += ["--unparser", dep]
     data = c16k.file_bytes(si)
-    rc, stdout, files = real_cli(args, data, outk)
+    rc, stdout, files = real_cli(args, data, outk, argv)
     before = {"in.py": data, "old.txt": c16k.OLD_CONTENT}
     target = os.path.normpath(c16k.out_name(outk)) if outk else None
     t = c16k.spec(c_args, dep)
@@ -81,11 +84,24 @@ def validate_stubs(rep):
         c_args = [args[i + 1] for i in range(0, len(args), 2) if args[i] == "-C"]
         dep = args[args.index("--unparser") + 1] if "--unparser" in args else None
         for use_out in (False, True):
-            inproc = c16k.check(c_args, use_out, dep, 0)
-            real = cli_agrees_with_spec(c_args, use_out, dep, 0)
+            # (the battery runs the REAL argparse parser in-process as well, on the same command line)
+            argv = ["in.py"] + list(args) + (["-o", "out.txt"] if use_out else [])
+            inproc = c16k.check(c_args, use_out, dep, 0, argv)
+            real = cli_agrees_with_spec(c_args, use_out, dep, 0, argv)
             n += 1
             if inproc != real:
                 rep.harness_error("stubbed run and real CLI disagree on %r (out=%s): stub says %s, real CLI says %s" % (args, use_out, inproc, real))
+    # order / spelling cells: stub (real argparse in-process) against the real CLI
+    for vi in (0, 1):
+        for di in (0, 1):
+            for form in range(c16k.ORDER_FORMS):
+                for use_out in (False, True):
+                    argv, cs, dep = c16k.order_argv(vi, di, form, use_out)
+                    inproc = c16k.check(cs, use_out, dep, 1, argv)
+                    real = cli_agrees_with_spec(cs, use_out, dep, 1, argv)
+                    n += 1
+                    if inproc != real:
+                        rep.harness_error("stubbed run and real CLI disagree on %r: stub says %s, real CLI says %s" % (argv, inproc, real))
     # I/O dimension: every cell of the k_io kernel, stub against the real CLI
     import concurrent.futures
 
@@ -130,6 +146,7 @@ def run(tier):
     nfiles = len(c16k.SCRIPTS) + len(c16k.IO_FILES)
     for sc in range(nfiles):
         conds.append(chrun.Condition("C16:io:file=%d" % sc, [("sc", "int"), ("outk", "int"), ("ai", "int")], "sc == %d and 0 <= outk < %d and 0 <= ai < %d" % (sc, len(c16k.OUT_KINDS), len(c16k.IO_ARGS)), "    return c16k.k_io(sc, outk, ai)"))
+    conds.append(chrun.Condition("C16:order", [("vi", "int"), ("di", "int"), ("form", "int"), ("use_out", "bool")], "0 <= vi < 2 and 0 <= di < 2 and 0 <= form < %d" % c16k.ORDER_FORMS, "    return c16k.k_order(vi, di, form, use_out)"))
     for pi in range(len(c16k.WS_PAIRS)):
         conds.append(chrun.Condition("C16:ws:%s" % c16k.WS_PAIRS[pi][0], [("pi", "int"), ("wi", "int"), ("pos", "int"), ("use_out", "bool")], "pi == %d and 0 <= wi < %d and 0 <= pos < 4" % (pi, len(c16k.WS)), "    return c16k.k_ws(pi, wi, pos, use_out)"))
     for n1 in range(4):
@@ -158,15 +175,15 @@ def run(tier):
             if rec is None:
                 inconclusive.append(cid)
                 continue
-            ok = cli_agrees_with_spec(rec["c_args"], rec["use_out"], rec["dep"], rec["si"])
+            ok = cli_agrees_with_spec(rec["c_args"], rec["use_out"], rec["dep"], rec["si"], rec.get("argv"))
             if ok:
                 rep.note("counterexample of %s did not reproduce on the real CLI: %r" % (cid, rec))
                 inconclusive.append(cid)
                 continue
-            desc = "C16:args=%r" % (rec["c_args"],) + ("" if isinstance(rec["use_out"], bool) else ":out=%d:file=%d" % (rec["use_out"], rec["si"]))
+            desc = "C16:args=%r" % (rec.get("argv") or rec["c_args"],) + ("" if isinstance(rec["use_out"], bool) else ":out=%d:file=%d" % (rec["use_out"], rec["si"]))
             if known.match(desc, None, None, "cli-diff"):
                 continue
-            rec.update({"property": "C16", "kind": "c16", "descriptor": desc, "divergence": "cli-diff", "what": "python -m oneliner in.py %s%s%s violates the CLI specification" % (" ".join("-C %r" % a for a in rec["c_args"]), " --unparser %s" % rec["dep"] if rec["dep"] else "", (" -o %s" % c16k.out_name(int(rec["use_out"]))) if rec["use_out"] else "") + ("" if rec["si"] < len(c16k.SCRIPTS) else " [input file kind %d: %s]" % (rec["si"], ["non-ASCII", "UTF-8 BOM", "CRLF, no trailing newline", "latin-1 coding line", "larger than one I/O buffer"][rec["si"] - len(c16k.SCRIPTS)]))})
+            rec.update({"property": "C16", "kind": "c16", "descriptor": desc, "divergence": "cli-diff", "what": ("python -m oneliner %s violates the CLI specification" % " ".join(rec["argv"])) if rec.get("argv") else "python -m oneliner in.py %s%s%s violates the CLI specification" % (" ".join("-C %r" % a for a in rec["c_args"]), " --unparser %s" % rec["dep"] if rec["dep"] else "", (" -o %s" % c16k.out_name(int(rec["use_out"]))) if rec["use_out"] else "") + ("" if rec["si"] < len(c16k.SCRIPTS) else " [input file kind %d: %s]" % (rec["si"], ["non-ASCII", "UTF-8 BOM", "CRLF, no trailing newline", "latin-1 coding line", "larger than one I/O buffer"][rec["si"] - len(c16k.SCRIPTS)]))})
             rep.violation(rec)
         else:
             inconclusive.append(cid)
@@ -202,6 +219,9 @@ def concretise(cid, args):
     if cid.startswith("C16:pool:"):
         a = P["names"][args["ni"]] + P["seps"][args["si"]] + P["values"][args["vi"]]
         return {"c_args": [a], "use_out": bool(args["use_out"]), "dep": [None, "ast.unparse", "oneliner"][args["dep"]], "si": args["sc"]}
+    if cid == "C16:order":
+        argv, cs, dep = c16k.order_argv(args["vi"], args["di"], args["form"], bool(args["use_out"]))
+        return {"c_args": cs, "use_out": bool(args["use_out"]), "dep": dep, "si": 1, "argv": argv}
     if cid.startswith("C16:ws:"):
         return {"c_args": [c16k.ws_arg(args["pi"], args["wi"], args["pos"])], "use_out": bool(args["use_out"]), "dep": None, "si": 0}
     if cid.startswith("C16:io:"):
@@ -215,5 +235,5 @@ def concretise(cid, args):
 def replay(rec):
     common.import_repo()
     c16k.setup(len(c16k.SCRIPTS))
-    ok = cli_agrees_with_spec(rec["c_args"], rec["use_out"], rec["dep"], rec["si"])
+    ok = cli_agrees_with_spec(rec["c_args"], rec["use_out"], rec["dep"], rec["si"], rec.get("argv"))
     return {"reproduced": not ok, "divergence": "cli-diff"}
